@@ -17,10 +17,12 @@ Ltac use_after :=
   try match goal with
   | |- context [after c ?s ?i ?ok ?e] =>
       let H := fresh "HAC" in let sa := fresh "sa" in let E := fresh "Esa" in
-      pose proof (after_cases c Hdone Hnorep s i ok e) as H; remember (after c s i ok e) as sa eqn:E; clear E; destruct H
+      pose proof (after_cases c Hnorep s i ok e) as H; remember (after c s i ok e) as sa eqn:E; clear E; destruct H;
+      unfold fphase in *; rewrite ?Hdone in *
   | H0 : context [after c ?s ?i ?ok ?e] |- _ =>
       let H := fresh "HAC" in let sa := fresh "sa" in let E := fresh "Esa" in
-      pose proof (after_cases c Hdone Hnorep s i ok e) as H; remember (after c s i ok e) as sa eqn:E; clear E; destruct H
+      pose proof (after_cases c Hnorep s i ok e) as H; remember (after c s i ok e) as sa eqn:E; clear E; destruct H;
+      unfold fphase in *; rewrite ?Hdone in *
   end.
 
 Ltac start_step HI Hs :=
@@ -61,7 +63,6 @@ Proof.
   all: nsimpl; try (intros; discriminate); try (apply E1).
   - (* LMark *) intros X. match type of M with _ = Some ?m => destruct (dep_mark_values c s d m M); subst m; discriminate end.
   - (* WFinish *) intros X. apply (E1 i). destruct (st (nd s i)); congruence.
-  - (* WStaleFinish *) intros X. apply (E1 i). destruct (st (nd s i)); congruence.
   - (* SigNode *)
     match goal with |- context [j =? ?k] => destruct (Nat.eqb_spec j k) as [->|Hne]; [|apply E1] end. nsimpl. discriminate.
 Qed.
@@ -71,7 +72,7 @@ Lemma step_e2 s l s' : Inv s -> EInv s -> step s l = Some s' ->
 Proof.
   intros HI HE Hs Hc Ht j.
   assert (Hq : quiet s') by (split; assumption).
-  pose proof (quiet_back c Hdone Hnorep _ _ _ Hs Hq) as [Hc0 Ht0].
+  pose proof (quiet_back c Hnorep _ _ _ Hs Hq) as [Hc0 Ht0].
   pose proof (e1 _ HE) as E1. pose proof (e2 _ HE Hc0 Ht0) as E2. clear Hq.
   start_step HI Hs.
   all: try (apply E2).
@@ -160,14 +161,15 @@ Qed.
 Theorem overall_canceled_iff s : overall c s = OCancel <-> (canceled s = true /\ is_succeed c s = false).
 Proof.
   unfold overall. destruct (canceled s), (is_succeed c s); cbn [andb negb];
-    destruct (graph_running c s), (lasterr s); split; intros H; try discriminate; try reflexivity; try (destruct H; discriminate); auto.
+    destruct (graph_running c s), (lasterr s), (all_terminal c s); cbn [negb];
+    split; intros H; try discriminate; try reflexivity; try (destruct H; discriminate); auto.
 Qed.
 
 (* finished: at the state where the handlers are chosen (loop left, every worker gone), without timeout *)
 Theorem overall_finished_iff s : Reach c s -> pc s = LExited -> timedout s = false ->
   (overall c s = OSuccess <-> is_succeed c s = true).
 Proof.
-  intros Hr Hpc Ht. destruct (reach_einv s Hr) as [HI HE]. destruct (reach_all_inv c Hdone Hnorep s Hr) as (_ & _ & HX).
+  intros Hr Hpc Ht. destruct (reach_einv s Hr) as [HI HE]. destruct (reach_all_inv c Hnorep s Hr) as (_ & _ & HX).
   split.
   - intros Ho. unfold overall in Ho.
     destruct (canceled s) eqn:Ec; cbn [andb] in Ho.
@@ -180,6 +182,10 @@ Proof.
       * rewrite (e2 _ HE Ec Ht i Est) in El. discriminate.
   - intros Hsu. pose proof (proj1 (is_succeed_spec s) Hsu) as Hall.
     unfold overall. rewrite Hsu. rewrite Bool.andb_false_r.
+    assert (Hat : all_terminal c s = true).
+    { unfold all_terminal. apply forallb_forall. intros i Hi. apply in_seq in Hi. specialize (Hall i ltac:(lia)).
+      unfold node_ok in Hall. destruct (st (nd s i)); try discriminate; reflexivity. }
+    rewrite Hat. cbn [negb].
     rewrite graph_running_false.
     + destruct (lasterr s) eqn:El; [|reflexivity]. exfalso.
       destruct (e3 _ HE El) as (i & Hi & Hw). apply err_witness_not_ok in Hw. specialize (Hall i Hi).
@@ -193,7 +199,7 @@ Theorem overall_failed_iff s : Reach c s -> pc s = LExited -> timedout s = false
    (~ (canceled s = true /\ is_succeed c s = false) /\ exists i, i < n /\ st (nd s i) = NError)).
 Proof.
   intros Hr Hpc Ht. destruct (reach_einv s Hr) as [HI HE].
-  destruct (reach_all_inv c Hdone Hnorep s Hr) as (_ & HQ & HX).
+  destruct (reach_all_inv c Hnorep s Hr) as (_ & HQ & HX).
   split.
   - intros Ho. assert (Hnc : ~ (canceled s = true /\ is_succeed c s = false)).
     { intros Hc. apply overall_canceled_iff in Hc. congruence. }
@@ -202,7 +208,7 @@ Proof.
     + destruct (is_succeed c s) eqn:Es; [|discriminate]. exfalso.
       pose proof (proj2 (overall_finished_iff s Hr Hpc Ht) Es) as Hf. unfold overall in Hf. rewrite Ec, Es in Hf.
       cbn [andb negb] in Hf, Ho. congruence.
-    + destruct (graph_running c s); [discriminate|]. destruct (lasterr s) eqn:El; [|discriminate].
+    + destruct (graph_running c s); [discriminate|]. destruct (lasterr s) eqn:El; [|destruct (all_terminal c s); discriminate].
       destruct (e3 _ HE El) as (i & Hi & Hw). exists i. split; [exact Hi|].
       pose proof (HQ (conj Ec Ht) i) as Hqi. unfold qnode, qnode_gen in Hqi. destruct Hqi as (_ & _ & Q3).
       unfold err_witness in Hw. destruct Hw as [[Hp Hs]|[Hp Hs]]; [exact Hs|].
@@ -415,7 +421,7 @@ Proof.
       destruct (step s1 l2) eqn:Hs2; [|discriminate]. eapply IH2; [exact Hr|]. eapply canceled_mono; eauto. }
     congruence. }
   rewrite <- (overall_stable_step s l s1 Hph Hg HI HL Hs Hc1).
-  apply (IH s1 s' Hph1 Hg1 (inv_step c Hdone Hnorep _ _ _ HI Hs) (siglt_step _ _ _ HL Hs) Hr). congruence.
+  apply (IH s1 s' Hph1 Hg1 (inv_step c Hnorep _ _ _ HI Hs) (siglt_step _ _ _ HL Hs) Hr). congruence.
 Qed.
 
 (* C04, partial: if no stop request arrives between the choice of the handlers and Done, the outcome reported at the
@@ -426,14 +432,14 @@ Theorem outcome_stable_partial ls1 ls2 s1 s2 s3 :
 Proof.
   intros H1 H2 H3 Hc.
   assert (Hr1 : Reach c s1) by (exists ls1; exact H1).
-  pose proof (reach_inv c Hdone Hnorep s1 Hr1) as HI.
+  pose proof (reach_inv c Hnorep s1 Hr1) as HI.
   assert (HL : SigLt s1) by (eapply siglt_run; [|exact H1]; constructor).
   assert (Hs2 : gone s1 /\ s2 = set_pc s1 (LHandlers (handlers_for c s1) false)).
   { cbn [Model.step] in H2. destruct (pc s1) eqn:Ep; try discriminate. destruct (all_gone c s1) eqn:Eg; [|discriminate].
     injection H2 as <-. split; [|auto]. intros i Hi. unfold all_gone in Eg. exact (forallb_seq_lt _ _ Eg i Hi). }
   destruct Hs2 as [Hg ->].
   rewrite (gone_run_stable ls2 (set_pc s1 (LHandlers (handlers_for c s1) false)) s3 eq_refl Hg
-             (inv_step c Hdone Hnorep _ _ _ HI H2) HL H3 Hc).
+             (inv_step c Hnorep _ _ _ HI H2) HL H3 Hc).
   reflexivity.
 Qed.
 
@@ -522,7 +528,6 @@ Proof.
   - (* LMark *) intros _ X. subst. destruct (dep_mark_values c s d _ M); discriminate.
   - (* WSkipExec: needs a canceled run with a worker before its cancel test *) intros _ _ _. exfalso. exact (S2 H0 i H M).
   - (* WAfter ok *) intros _ _ Hd. unfold hdtrue. nsimpl. apply S3; assumption.
-  - (* WStaleFinish *) intros _ X. destruct (st (nd s i)); discriminate.
   - match goal with |- context [j =? ?k] => destruct (Nat.eqb_spec j k) as [->|Hne]; [|apply S4] end. nsimpl. intros; discriminate.
 Qed.
 
@@ -683,7 +688,59 @@ Proof.
     destruct (Nat.eq_dec j i) as [->|Hne].
     + exfalso. unfold post_phase in Hpp. destruct Hp as [X|X]; rewrite X in Hpp; intuition discriminate.
     + rewrite (Ho j Hne) in *. apply HK; assumption.
-  - (* WStaleFinish *) destruct (st (nd s i)); discriminate.
   - (* SigFlag *) apply in_or_app. right. apply in_seq. lia.
 Qed.
 End StopGeneral.
+
+Section StopMore.
+Variable c : cfg.
+Notation n := (nsteps c).
+
+Lemma kinv_init : KInv c (init c).
+Proof. intros H. cbn in H. discriminate. Qed.
+
+Theorem signal_reaches s : Reach c s -> KInv c s.
+Proof.
+  intros [ls Hr]. revert Hr. generalize kinv_init. generalize (init c).
+  induction ls as [|l ls IH]; simpl; intros s0 HK Hr.
+  - injection Hr as <-. exact HK.
+  - destruct (step c s0 l) eqn:Hs; [|discriminate]. eapply IH; [|exact Hr]. eapply kinv_step; eauto.
+Qed.
+
+(* when the pass reaches an executing, still running, non-repeating step it forwards the signal (Kill) and flips it *)
+Lemma kill_when_popped s k i q s' : Inv c s -> sigq s = i :: q -> ph (nd s i) = PExec -> st (nd s i) = NRunning ->
+  repeat (steps c i) = false -> step c s (SigNode k) = Some s' -> k = true /\ st (nd s' i) = NCancel.
+Proof.
+  intros HI Hq Hp Hst Hrep Hs. pose proof (iD _ _ HI i) as HD. unfold counts in HD. rewrite Hp in HD.
+  destruct HD as [_ Hatt].
+  cbn [step] in Hs. rewrite Hq, Hrep, Hst in Hs.
+  assert (Ha : (0 <? att (nd s i)) = true) by (apply Nat.ltb_lt; lia). rewrite Ha in Hs.
+  destruct k; cbn in Hs; [|discriminate]. injection Hs as <-. split; [reflexivity|].
+  unfold set_nd, upd. cbn [nd]. rewrite Nat.eqb_refl. reflexivity.
+Qed.
+
+(* a run reported canceled gets the cancel handler, then the exit handler *)
+Lemma cancel_handlers s : overall c s = OCancel -> handlers_for c s = filter (hon c) [HCancel; HExit].
+Proof. intros H. unfold handlers_for. rewrite H. reflexivity. Qed.
+
+(* after the deadline no command and no handler command starts (the executor refuses an expired context) *)
+Lemma timeout_no_start s : timedout s = true ->
+  (forall i, step c s (WExecStart i) = None) /\ (forall h, step c s (HStart h) = None).
+Proof.
+  intros Ht. split.
+  - intros i. cbn [step]. destruct (ph (nd s i)); try reflexivity. rewrite Ht, Bool.andb_false_r. reflexivity.
+  - intros h. cbn [step]. destruct (pc s); try reflexivity. destruct todo; try reflexivity. destruct cur; try reflexivity.
+    rewrite Ht, Bool.andb_false_r. reflexivity.
+Qed.
+
+(* a command that was executing when the deadline passed and then ends is labelled canceled, the run failed *)
+Lemma timeout_cuts s i : donech c = true -> norepeat c -> ph (nd s i) = PEnded false -> st (nd s i) = NRunning ->
+  timedout s = true -> i < n ->
+  exists s', step c s (WAfter i false) = Some s' /\ st (nd s' i) = NCancel /\ ph (nd s' i) = PGone /\ lasterr s' = true.
+Proof.
+  intros Hd Hn Hp Hst Ht Hi. cbn [step]. rewrite Hp. apply Nat.ltb_lt in Hi. rewrite Hi. cbn [negb orb andb].
+  eexists. split; [reflexivity|].
+  unfold after, tail. rewrite Hst, Ht, (Hn i), Hd. cbn [andb].
+  unfold set_nd, set_err, upd. cbn [nd lasterr]. rewrite Nat.eqb_refl. nsimpl. auto.
+Qed.
+End StopMore.
